@@ -224,6 +224,22 @@ def gen_tx(rng, allow_noinput=False):
     return dict(ver=pick_int(rng, I32E, 32), lock=pick(rng, U32E, 32), vin=vin, vout=vout, wit=wit)
 
 
+def shape_version(m):
+    """keep exactly the fields the message's protocol version carries (106 / 209 / 70001); relay absent = 1"""
+    m = list(m)
+    ver = m[1]
+    if ver < 106:
+        m[5] = m[6] = m[7] = None
+    if ver < 209:
+        m[8] = None
+    if ver < 70001:
+        m[9] = 1
+    return tuple(m)
+
+
+LOW_VERSIONS = [70000, 60002, 60001, 31402, 209, 208, 107, 106, 105, 1, 0, -1, -0x80000000]
+
+
 def gen_count(rng, big_ok=True):
     c = rng.choice(COUNTS) if rng.random() < 0.5 else rng.randrange(0, 8)
     if not big_ok:
@@ -231,7 +247,7 @@ def gen_count(rng, big_ok=True):
     return c
 
 
-def gen_msg(rng, kind, wild=False, small=False):
+def gen_msg(rng, kind, wild=False, small=False, lowver=False):
     """a message of the given type; `wild` allows field values outside the wire ranges and protocol
     versions below 70001; `small` keeps vectors short (frames used for exhaustive corruption)"""
     def cnt():
@@ -263,9 +279,12 @@ def gen_msg(rng, kind, wild=False, small=False):
                 height = rng.choice([1 << 31, -(1 << 31) - 1])
             elif r < 0.56:
                 nonce = 1 << 64
-        return ('version', ver, pick(rng, U64E + ([1 << 64] if wild else []), 64),
-                pick_int(rng, I64E + ([1 << 63] if wild else []), 64), gen_addr(rng, True, wild), fr, nonce, sub,
-                height, relay)
+        m = ('version', ver, pick(rng, U64E + ([1 << 64] if wild else []), 64),
+             pick_int(rng, I64E + ([1 << 63] if wild else []), 64), gen_addr(rng, True, wild), fr, nonce, sub,
+             height, relay)
+        if not wild and lowver and rng.random() < 0.4:
+            m = shape_version((m[0], rng.choice(LOW_VERSIONS)) + m[2:])
+        return m
     if kind in ('verack', 'getaddr', 'mempool'):
         return (kind,)
     if kind == 'addr':
@@ -332,7 +351,8 @@ class C18(Prop):
         'chain_magic_length', 'payload_eq_spec', 'frame_eq_spec', 'payload_roundtrip', 'parse_frame',
         'reframe_identical', 'parse_reframe', 'fromBytes_frame', 'parse_stream', 'parse_stream_append', 'bad_magic_rejected',
         'bad_checksum_rejected', 'corrupted_payload_rejected', 'accepted_frame_valid', 'truncated_frame_trunc',
-        'length_guard', 'position_le_frame_end')]
+        'length_guard', 'position_le_frame_end', 'checksum_len', 'command_eq_spec', 'parse_stream_trace', 'parseAll_eq_trace', 'rejected_before_dispatch',
+        'returned_was_accepted')]
     anchors = ([('bitcoin/messages.py', 'MsgSerializable.to_bytes'),
                 ('bitcoin/messages.py', 'MsgSerializable.stream_deserialize'),
                 ('bitcoin/messages.py', 'MsgSerializable.from_bytes')] +
@@ -694,7 +714,7 @@ class C18(Prop):
         for kind in NAMES:
             for j in range(per_type * (3 if kind in ('version', 'addr') else 1)):
                 wild = (j % 3 == 2)
-                m = gen_msg(rng, kind, wild=wild)
+                m = gen_msg(rng, kind, wild=wild, lowver=True)
                 ch = CHAINS[(j + shard) % 4]
                 yield mk('c18.frame', ch, show_msg(m), rng.randrange(64), tag='frame:' + kind)
                 if not wild or kind == 'version':
@@ -704,7 +724,9 @@ class C18(Prop):
             if vi % nshards == shard or big:
                 m = list(gen_msg(rng, 'version'))
                 m[1] = ver
-                wf.append((rng.choice(CHAINS), tuple(m)))
+                m = shape_version(tuple(m)) if rng.random() < 0.7 else tuple(m)
+                yield mk('c18.frame', rng.choice(CHAINS), show_msg(m), rng.randrange(64), tag='frame:version-boundary')
+                wf.append((rng.choice(CHAINS), m))
         # CompactSize switch points 0xffff/0x10000 on a byte string (and, thorough, on a vector count)
         if shard == 1 % nshards:
             for ln in (0xffff, 0x10000, 0x10001):
@@ -895,11 +917,20 @@ class C18(Prop):
 
     def signature(self, c, io, mo):
         op, a = c['op'], c['args']
+        def low_version(txt):
+            f = txt.split(' ')
+            return f[0] == 'version' and int(f[1]) < 70001
         if op == 'c18.hist':
+            for st in a:
+                parts = st.split('#')
+                if len(parts) == 3 and low_version(parts[1] if st[0] == 'N' else parts[2]):
+                    return 'D20-version-ser-ungated'
             return None
         if op == 'c18.frame':
             if a[1].startswith('headers ') and len(a[1]) > len('headers '):
                 return 'D15-headers-missing-txcount'
+            if low_version(a[1]):
+                return 'D20-version-ser-ungated'
             return None
         data = bytes.fromhex(a[1])
         # D14: the model stops at a header whose length field is >= 2^31 (MAX_SIZE guard, 24 bytes consumed)
@@ -918,6 +949,9 @@ class C18(Prop):
                 start = 0 if k == 0 else int(mm[k - 1].split('@')[0])
                 if data[start + 4:start + 12] == b'headers\x00' and not data[start + 24:start + 25] in (b'\x00', b''):
                     return 'D15-headers-missing-txcount'
+                if data[start + 4:start + 12] == b'version\x00' and len(data) >= start + 28 and \
+                        struct.unpack('<i', data[start + 24:start + 28])[0] < 70001:
+                    return 'D20-version-ser-ungated'
                 break
         if op == 'c18.frombytes' and data[4:12] == b'headers\x00':
             return 'D15-headers-missing-txcount'
